@@ -176,6 +176,22 @@ def _run_case(ctx, case, op):
                   got=obs.show(got) if got is not None else None, detail=problems, nontrivial=bool(want))
         if obs.cells(f) != A:
             ctx.judge(False, case, mech="C06:operand-changed", expected=obs.show(A), got=obs.show(obs.cells(f)))
+    elif op == "long_chain":
+        # hundreds of unobserved concatenations / a large repeat count, looked at only at the end,
+        # as building up a screenful of output does: same text and length as str gives
+        n = case["n"]
+        a, b = obs.build(case["a"]), obs.build(case["b"])
+        ta, tb = "".join(t for t, _ in case["a"]), "".join(t for t, _ in case["b"])
+        try:
+            f = a
+            for _ in range(n):
+                f = f + b
+            g = b * n
+            got = [len(f), f.s == ta + tb * n, len(g), g.s == tb * n, f[len(ta) + len(tb) * (n - 1):].s if n else ta]
+        except Exception as e:  # noqa
+            got = repr(e)[:200]
+        want = [len(ta) + len(tb) * n, True, len(tb) * n, True, tb if n else ta]
+        ctx.judge(got == want, case, ("C06", "chain", n, ta, tb), "C06:long-chain", want, got)
     elif op == "join_markup":
         # plain-str items that happen to hold an escape sequence are text like any other (that is
         # what + does with them); judged on the result's text and length only
@@ -267,6 +283,9 @@ def run(ctx):
             run_case(ctx, {"op": "join_markup", "sep": [[" | ", {}]], "items": items})        # nothing formatted anywhere
             run_case(ctx, {"op": "join_markup", "sep": [["", {}]], "items": items + ["caf\x9b au lait"]})
             ctx.count("joins_of_plain_str_with_escape_sequences")
+    if ctx.shard[0] == 0:
+        for n in (300, 1200, 2500):
+            run_case(ctx, {"op": "long_chain", "n": n, "a": [["ab", {"fg": 31}]], "b": [["c", {"bold": True}], ["d", {}]]})
     small = list(obs.layouts(3, 2)) if not quick else list(obs.layouts(2, 2))
     strs = ["", "x", "xy"]
     for la in small:
